@@ -160,7 +160,9 @@ fn enum_oracle(e: &Enumerated, obs: &mut Obs) -> Check {
     // `{{ n.a }}` is printed unconditionally after the program, so that the failing form of the
     // lookup is held to the innermost binding too (an error when that binding has no member `a`,
     // whatever an outer layer holds)
-    if !e.stmts.is_empty() {
+    // (programs of one or two statements: every pair of binding forms; length 3 would triple the
+    // thorough tier for no new pair)
+    if !e.stmts.is_empty() && e.stmts.len() <= 2 {
         for n in NAMES {
             let mut site = 0;
             let mut main = lower(&e.stmts, &mut site);
